@@ -7,9 +7,9 @@
 package c01
 
 import (
-	"math"
 	"context"
 	"fmt"
+	"math"
 	"os"
 	"path/filepath"
 	"regexp"
